@@ -891,6 +891,11 @@ class Interp:
                 if len(n.ops) != 1:
                     raise Unsupported("chained comparison of Exprs")
                 return r
+            if getattr(type(r), "__absint_host__", False) and not isinstance(r, bool):
+                # a host value standing for an undecided condition (symbolic comparison)
+                if len(n.ops) != 1:
+                    raise Unsupported("chained comparison of symbolic values")
+                return r
             if not r:
                 return False
             left = right
